@@ -67,7 +67,7 @@ class Tail(Edit):
 
 class Fn:
     def __init__(self, file, impl, name, ret=None, spec='', edits=(), generics_dyn=True, props=(), attrs='',
-                 external_body=False, sig_replace=None, trusted_reason=None):
+                 external_body=False, sig_replace=None, trusted_reason=None, as_inherent=False):
         self.file, self.impl, self.name, self.ret, self.spec = file, impl, name, ret, spec
         self.edits = list(edits)
         self.generics_dyn = generics_dyn
@@ -76,15 +76,21 @@ class Fn:
         self.external_body = external_body
         self.sig_replace = sig_replace  # list of (pattern, template) applied to the signature only (rule E2)
         self.trusted_reason = trusted_reason
+        self.as_inherent = as_inherent  # method of `impl Trait for T` emitted as inherent method of T (call syntax unchanged)
 
     @property
     def qual(self):
-        return (self.impl + '::' if self.impl else '') + self.name
+        impl = self.impl
+        if impl and self.as_inherent and ' for ' in impl:
+            impl = impl.split(' for ')[-1].strip()
+        return (impl + '::' if impl else '') + self.name
 
 
 class Struct:
-    def __init__(self, file, name, derive=None, extra=''):
-        self.file, self.name, self.derive, self.extra = file, name, derive, extra
+    def __init__(self, file, name, derive=None, extra='', dyn_param=None, drop_fields=()):
+        # dyn_param: name of the type parameter that replaces a field of type `Arc<dyn Fn..>` (rule E2)
+        self.file, self.name, self.derive, self.extra, self.dyn_param = file, name, derive, extra, dyn_param
+        self.drop_fields = drop_fields
 
 
 class IdMacro:
@@ -379,6 +385,10 @@ class Extractor:
         while toks[i].text == '#':
             i = src.pair[i + 1] + 1
         is_trait_impl = htxt is not None and re.search(r'\bfor\b', htxt) is not None
+        if is_trait_impl and f.as_inherent:
+            self.log('E9', what, 'impl ' + htxt, 'inherent method of ' + htxt.split(' for ')[-1].strip())
+            htxt = htxt.split(' for ')[-1].strip()
+            is_trait_impl = False
         vis = '' if is_trait_impl else 'pub '
         head_start = toks[i].s
         edits.append((head_start, toks[k].s, vis + ''.join(q + ' ' for q in quals), 'E4'))
@@ -607,6 +617,7 @@ class Extractor:
         # locate field list
         outb = body
         edits = []
+        self_dyn = sdef.dyn_param
         for idx, t in enumerate(btoks):
             if t.text in ('{', '(') and idx > 0:
                 c = bpair[idx]
@@ -625,6 +636,14 @@ class Extractor:
                             q = fstart
                             while btoks[q].text == '#':
                                 q = bpair[q + 1] + 1
+                            if self_dyn and btoks[q if btoks[q].text != 'pub' else q].text:
+                                # locate the type: after the ':' at depth 0
+                                cq = q
+                                while btoks[cq].text != ':':
+                                    cq += 1
+                                if btoks[cq + 1].text == 'Arc' and btoks[cq + 2].text == '<' and btoks[cq + 3].text == 'dyn':
+                                    edits.append((btoks[cq + 1].s, btoks[j - 1].e, 'Arc<%s>' % self_dyn, 'E2'))
+                                    self.log('E2', 'struct ' + sdef.name, body[btoks[cq + 1].s:btoks[j - 1].e], 'Arc<%s>' % self_dyn)
                             if btoks[q].text == 'pub':
                                 qe = q + 1
                                 if btoks[qe].text == '(':
@@ -740,6 +759,77 @@ class Extractor:
         return res
 
 
+
+def _angle_close(toks, i):
+    """toks[i] is '<': index of the matching '>'"""
+    d = 0
+    j = i
+    while j < len(toks):
+        if toks[j].text == '<':
+            d += 1
+        elif toks[j].text == '>':
+            d -= 1
+            if d == 0:
+                return j
+        elif toks[j].text in ('{', ';'):
+            break
+        j += 1
+    raise ExtractError('unbalanced generics')
+
+
+def genericize(text, gtypes, impl_header=False):
+    """rule E2 for types: a struct holding `Arc<dyn Fn..>` becomes generic over the closure type.
+    gtypes: list of (TypeName, Param, Bound). Adds the parameter at the definition, at every use in type
+    position and to impl headers."""
+    if not gtypes:
+        return text
+    toks = lex(text)
+    ins = []  # (offset, text)
+    needs = []
+    for i, t in enumerate(toks):
+        if t.kind != 'id':
+            continue
+        for (T, P, B) in gtypes:
+            if t.text != T:
+                continue
+            prev = toks[i - 1].text if i > 0 else ''
+            nxt = toks[i + 1].text if i + 1 < len(toks) else ''
+            if nxt == '::' or prev == '::' and False:
+                continue
+            if prev == 'struct':
+                if nxt == '<':
+                    c = _angle_close(toks, i + 1)
+                    ins.append((toks[c].s, ', %s: %s' % (P, B)))
+                else:
+                    ins.append((t.e, '<%s: %s>' % (P, B)))
+                continue
+            if nxt == '{' and not impl_header:
+                raise ExtractError('struct literal of generic type %s not supported' % T)
+            if nxt == '<':
+                c = _angle_close(toks, i + 1)
+                ins.append((toks[c].s, ', %s' % P))
+            else:
+                ins.append((t.e, '<%s>' % P))
+            if (P, B) not in needs:
+                needs.append((P, B))
+    if impl_header and needs:
+        decl = ', '.join('%s: %s' % pb for pb in needs)
+        if toks and toks[0].text == '<':
+            c = _angle_close(toks, 0)
+            ins.append((toks[c].s, ', ' + decl))
+        else:
+            ins.append((0, '<' + decl + '> '))
+    ins.sort(key=lambda x: x[0])
+    out = []
+    pos = 0
+    for off, tx in ins:
+        out.append(text[pos:off])
+        out.append(tx)
+        pos = off
+    out.append(text[pos:])
+    return ''.join(out)
+
+
 def add_false_ensures(spec):
     """append `false` to the ensures clause (vacuity canary)"""
     toks = lex(spec)
@@ -791,11 +881,14 @@ def build_unit(unit, repo, unit_dir, canary=False):
     contracted = []
     pending_impl = None  # (header, [texts])
 
+    gtypes = unit.get('generic_types', [])
+
     def flush():
         nonlocal pending_impl
         if pending_impl:
             hdr, parts = pending_impl
-            out.add('impl %s {' % hdr, ('glue', 'impl ' + hdr))
+            hdr = genericize(hdr, gtypes, impl_header=True)
+            out.add('impl%s%s {' % ('' if hdr.startswith('<') else ' ', hdr), ('glue', 'impl ' + hdr))
             for (txt, origin) in parts:
                 out.add(indent(txt, 4), origin)
             out.add('}', ('glue', 'impl ' + hdr))
@@ -810,6 +903,7 @@ def build_unit(unit, repo, unit_dir, canary=False):
                     variants.append(True)
             for cv in variants:
                 txt, htxt, line = ex.extract_fn(it, canary=cv)
+                txt = genericize(txt, gtypes)
                 origin = ('fn', it.qual + ('__canary' if cv else ''), it.file, line)
                 if htxt is None:
                     flush()
@@ -824,6 +918,7 @@ def build_unit(unit, repo, unit_dir, canary=False):
             flush()
             if isinstance(it, Struct):
                 txt, line = ex.extract_struct(it)
+                txt = genericize(txt, gtypes)
                 out.add(txt, ('struct', it.name, it.file, line))
             elif isinstance(it, IdMacro):
                 out.add(ex.expand_id(it), ('idmacro', it.name, it.file, 0))
